@@ -51,3 +51,5 @@ clean:
 # model self-tests (own main, no harness)
 $(B)/fz/selftest_url: ref/selftest_url.cpp $(B)/fz/ref_refurl.o $(B)/fz/ada.o | $(B)/fz
 	$(CXX) $(STD) $(FLAGS_fz) $(DEFS) $(INC) $(WARN) $^ -o $@
+$(B)/fz/selftest_idna: ref/selftest_idna.cpp $(B)/fz/ref_refidna.o | $(B)/fz
+	$(CXX) $(STD) $(FLAGS_fz) -Iref $(WARN) $^ -licuuc -o $@
